@@ -89,7 +89,8 @@ void h_barrier_wait(void) {
 void h_barrier_init(void) {
   long n = nondet_long();
   __CPROVER_havoc_object(&B);
-  myth_barrier_init_body(&B, 0, n);
+  myth_barrierattr_t bat_; _Bool with_battr = nondet_bool();
+  myth_barrier_init_body(&B, with_battr ? &bat_ : 0, n);
   __CPROVER_assert(B.state == 0 && B.n_threads == n && B.sleep_s->top == 0, "barrier_init: nobody arrived, nobody sleeping, N recorded");
   VERIF_CANARY();
 }
